@@ -167,7 +167,7 @@ def check_c18(ctx):
                         "call/return stamps come from one atomic counter taken before the call and after the return, so stamp order implies real-time precedence",
                         "the race detector reports unsynchronised conflicting accesses it observes; absence of a report is not a proof of absence"]
     return ctx.finish("model_checking",
-                      "concurrent histories (2-8 goroutines x 6-25 operations on 4 atoms: add, remove, contains, pattern query, merge) recorded from the real ConcurrentFactStore under -race and checked for linearizability by TLC "
+                      "concurrent histories (2-8 goroutines x 6-25 operations on 4 atoms: add, remove, contains, pattern query, merge, list predicates, fact count) recorded from the real ConcurrentFactStore under -race and checked for linearizability by TLC "
                       "(silent linearization steps, depth-first search); parallel evaluation pipelines under -race validated against the TLC model; non-trivial/distinct = distinct recorded histories and derived-fact programs")
 
 
